@@ -844,7 +844,9 @@ package server
 //@   ghost after call IsReadonly: ghost.roSeen := ret0
 //@   ghost after call LatestOffsetBeforeTimestamp: ghost.tsOffset := ret0
 //@   call LatestOffsetBeforeTimestamp requires [requested-timestamp] arg1 == req.StopTimestamp
-//@   ensures [on-cancel] st == nil && req.StopPosition == client.StopPosition_STOP_ON_CANCEL ==> stop == (ghost.roSeen ? ghost.newestSeen : -1)
+// ("read-only partitions, which end at the end of the log": a FORWARD subscription on a read-only partition stops at the
+//  newest offset; for a reverse subscription the end of the log is where it starts - it runs down to the oldest message)
+//@   ensures [on-cancel] st == nil && req.StopPosition == client.StopPosition_STOP_ON_CANCEL ==> stop == (ghost.roSeen && !req.Reverse ? ghost.newestSeen : -1)
 //@   ensures [offset] st == nil && req.StopPosition == client.StopPosition_STOP_OFFSET ==> stop == req.StopOffset
 //@   ensures [latest] st == nil && req.StopPosition == client.StopPosition_STOP_LATEST ==> stop == ghost.newestSeen && stop != -1
 //@   ensures [timestamp] st == nil && req.StopPosition == client.StopPosition_STOP_TIMESTAMP ==> stop == ghost.tsOffset
